@@ -115,6 +115,14 @@ def main(run):
         hist = []
         faulty = (i % 5 == 4)        # every 5th configuration: callbacks fail now and then, the caller catches and continues
         for t in range(cfg["steps"]):
+            if cfg.get("checkpoint") and t == min(4, cfg["steps"] - 1) and not cfg.get("real"):
+                import copy
+                old_sc, sc = sc, copy.deepcopy(sc)      # checkpoint: the stream continues on a deep copy; the original is used for something else
+                try:
+                    old_sc.step()
+                except Exception:
+                    pass
+                run.count("checkpointed-streams")
             kw = sc.call_kwargs()
             if faulty and t >= 1 and sc.rnd.random() < 0.35:
                 sc.clock.fail_at_next = sc.rnd.randrange(1, 3 + 2 * cfg["d"] * cfg["n_inner"])
